@@ -466,6 +466,7 @@ func checkC35(c *Ctx) string {
 
 	checkRecordCopyKeepsRuleState(c, "C35.4 K9 a copied record keeps its rule state")
 	checkDependencyRecordedRegardlessOfResult(c, "C35.5 K4c dependencies are recorded for missing fields too")
+	checkInvalidMarkSurvivesThrow(c, "C35.9 K5 a rule that throws leaves its field invalid")
 	checkRuleBookkeeping(c, "C35.6 K5 the active-rule entry is popped by a deferred call", "C35.7 K4 dependencies are loaded before the row is dropped", "C35.8 K9 a running rule is identified by record and field")
 	return "Static shape of record rules: every function of package core that calls (or passes as a method value) a keyed mutator of SuObject on a SuRecord's object is either one of 7 frozen exceptions (PreSet, Clear, DeleteAll, " +
 		"toObject, getFromRow, callRule, ToRecord — reasons in c35.go) or satisfies: every return after the change has called callObservers after invalidateDependents with the changed key, unless the key is not a string, the " +
